@@ -25,7 +25,7 @@ PAYLOADS = ('internal', 'nested', 'parameter', 'external_file', 'external_http',
             'unused', 'attr_only', 'benign_empty_subset', 'benign_element_decl', 'benign_none')
 BENIGN = ('benign_empty_subset', 'benign_element_decl', 'benign_none')
 PROLOGS = ('plain', 'bom8', 'utf16', 'latin1', 'pad9k', 'pad17k', 'pad66k', 'subsetpad66k')
-ROLES = ('instance', 'instance_lazy', 'validate', 'main_schema', 'included', 'imported')
+ROLES = ('instance', 'instance_lazy', 'validate', 'main_schema', 'included', 'imported', 'redefined')
 
 # channel catalogue: (name, kind, seekable, url attribute, base_url class)
 CHANNELS = []
@@ -155,7 +155,7 @@ class C13(Check):
         prolog = rng.choice(PROLOGS) if rng.random() < 0.6 else 'plain'
         if chan[1] in ('text', 'stringio', 'textio') and prolog in ('bom8', 'utf16', 'latin1'):
             prolog = 'plain'
-        if role in ('included', 'imported'):
+        if role in ('included', 'imported', 'redefined'):
             chan = rng.choice([x for x in CHANNELS if x[0] in ('path', 'fileurl', 'http', 'http_opener')])
         peer = 'constant'
         if chan[1] in ('http', 'http_opener') and rng.random() < 0.5:
@@ -206,7 +206,7 @@ class C13(Check):
                 fp.write(f'<!ENTITY x "{MARK}">\n')
             urls = ('file://' + os.path.join(world, 'secret.txt'), 'http://sim.test/secret.txt',
                     'file://' + os.path.join(world, 'ext.dtd'))
-            is_schema = role in ('main_schema', 'included', 'imported')
+            is_schema = role in ('main_schema', 'included', 'imported', 'redefined')
             tns = 'urn:imp' if role == 'imported' else None
             doc = build_doc(payload, prolog, is_schema, urls, tns)
             benign = build_doc('benign_none', 'plain', is_schema, urls, tns)
@@ -381,9 +381,10 @@ class C13(Check):
                 trees += [s.root for s in schema.maps.iter_schemas() if s.meta_schema is not None]
             else:
                 # benign main document that includes / imports the payload document
-                if role == 'included':
+                if role in ('included', 'redefined'):
+                    tag = 'include' if role == 'included' else 'redefine'
                     main = ('<xs:schema xmlns:xs="http://www.w3.org/2001/XMLSchema">\n'
-                            ' <xs:include schemaLocation="part.xsd"/>\n <xs:element name="main" type="xs:int"/>\n</xs:schema>')
+                            f' <xs:{tag} schemaLocation="part.xsd"/>\n <xs:element name="main" type="xs:int"/>\n</xs:schema>')
                 else:
                     main = ('<xs:schema xmlns:xs="http://www.w3.org/2001/XMLSchema">\n'
                             ' <xs:import namespace="urn:imp" schemaLocation="part.xsd"/>\n'
